@@ -147,6 +147,272 @@ claim("C11",
       "Trusted: Coq kernel, extraction + driver, harness. Folder path assignment, update, update_entry, split, move-a-side: correspondence + oracle only, no preservation proof.",
       PURE_TECH, "DESIGN.md §6 C11")
 
+
+# ---- from notes/C12_claim.py
+# Proposed replacement of the claim("C12", ...) call in harness/manifest_gen.py (do not edit that file here).
+# What is new: "move out = delete, move in = create" and "declined paths are left alone" are theorems about
+# every accepted trace (MonitorBoundary.v, PropC12.v), no longer only convergence of the views.
+claim("C12",
+      "Coq proof (all traces, any length, any trees): every engine-issued provider mutation of an accepted trace addresses only paths "
+      "inside the root of its side, the part of each provider tree outside the root is identical before and after it "
+      "(C12_engine_confined), and no addressed path has a component the application's translate function declines "
+      "(C12_declined_left_alone; guard DECLINED, the declined names are part of the run's configuration). "
+      "For accepted one-sided runs (users act on one side s0; initial tree of s0 well-formed = unique paths, every parent a stored folder): "
+      "the entries strictly below a root and all the others determine the tree (C12_view_and_outside_determine_tree), hence no engine "
+      "action changes the acting side at all and after every observation its tree equals the initial tree with the user's ABSOLUTE "
+      "operations applied, renames with one end outside the root included (C12_origin_tree_is_history, C12_origin_tree_observed); "
+      "at every quiet report of a run that demands the absence of conflicted names the peer's view equals the root view of that tree "
+      "(C12_boundary_moves_mirror). Spelled out for an applicable rename that is the last user operation before a quiet report "
+      "(applicability = TreeProofs.rename_ok of the tree itself; C12_rename_applicable: source exists, not an ancestor of the target, "
+      "target free, target's parent a folder): source strictly inside the root and target not => the peer's view has nothing at or "
+      "below the source's relative path and is the previous root view everywhere else (C12_move_out_is_delete); source not strictly "
+      "inside and target strictly inside => the peer's view has at the target's relative path and below exactly what the acting side "
+      "had at the source and below, and is the previous root view everywhere else (C12_move_in_is_create). Non-vacuity: a concrete "
+      "accepted one-sided trace with a file moved out and a folder with content moved in, both corollaries instantiated on it, and "
+      "rejected variants (peer copy left behind: CONVERGE; declined path addressed: DECLINED; outside write: CONFINED). "
+      "Translation into/out of the roots by the default translate: C13's theorems; nothing about an arbitrary translate function is "
+      "proved beyond 'declined names are never addressed'. "
+      "Tie: histories mixing objects inside the roots, in other folders, in prefix-sibling folders (/local2, /localx), at the account "
+      "root, file/folder moves across the boundary, roots given by path or by oid, and a translate function declining a sub-folder, each "
+      "run on the real engine as a one-sided run with origin = the acting side and (except the declining variant, whose ignore list "
+      "doubles as the conflicted list) no_conflicted = true, i.e. exactly the hypotheses of the boundary theorems; every explored run "
+      "must be accepted by the extracted acceptor. Not proved / not checked at run time: well-formedness of the initial tree is a "
+      "hypothesis (true of every MockProvider tree; TreeProofs.wfb decides it); two-sided runs get confinement and DECLINED only; "
+      "a boundary move whose effect is still in flight at the end of a run (no quiet report after it) is constrained only by "
+      "confinement.",
+      ENGINE_NOTE, ENGINE_TECH, "DESIGN.md §3.2, §6 C12")
+
+
+# ---- from notes/C20_claim.py
+# paste into harness/manifest_gen.py (after the other engine-level claims; ENGINE_NOTE / ENGINE_TECH are defined there)
+claim("C20",
+      "Coq proof (37 theorems, no axioms), every statement for an ARBITRARY auto-sync predicate. (a) Gate — an executable model of the "
+      "mechanism in cloudsync/smartsync.py over arbitrary entry tables, request / exclude sets and local provider contents: an entry that "
+      "is a remote-only file, not requested and not matched never reaches the sync step (it is not offered, or it is finished at "
+      "pre_sync) and the filter does not request it; folders, requested entries and entries with a live local file always pass; a pending "
+      "folder / requested entry / fresh local change is always offered; request registers the entry, un-excludes it, marks the remote side "
+      "changed, forgets a stale local side and processes changed ancestors first (and raises, after registering, when the remote path is "
+      "unknown: finding S-1); un-request issues only a push of the entry and a delete of the LOCAL object and leaves an entry that cannot be "
+      "read as a local deletion; the merged listing of one folder. (b) smart_spec — big-step outcomes over (remote tree, local tree, "
+      "requested, un-requested, locally born) for ALL sequences of remote create/mkdir/edit/delete, local create/mkdir/edit, request, "
+      "un-request and edit-then-un-request: an invariant of every reachable state gives folders_always_mirrored, local_tree_uploaded / "
+      "local_creations_uploaded, never_download_unrequested (+ trace form: a file is local only if the sequence contains its request, its "
+      "matched remote creation or its local creation), requested_kept_in_sync (+ persistence, both directions), unrequest_keeps_remote "
+      "(remote tree identical; with a pending local edit: identical except that file's content) and removes only the local copy, "
+      "unrequested_stays_remote (predicate or not), listing_law. (c) Monitor — for every observation trace accepted by mon_accept: a file "
+      "that appears locally while its remote file exists was requested, or is matched and not un-requested; after a successful un-request "
+      "no engine action brings the file back until it is requested again; a remote file disappears through an engine action only outside "
+      "any un-request call and only if a user deleted the local copy (never, when no user deletes locally); inside an un-request call only "
+      "the content of that file's remote copy and the presence of its local copy change. "
+      "Tie on every run: (1) the gate model step by step against the real SmartSyncState._changeset, SmartSyncManager.pre_sync, "
+      "SmartCloudSync.smart_sync_* / smart_unsync_* / smart_listdir_path on random real entry tables; (2) seeded sequences on the real "
+      "SmartCloudSync over two MockProviders (drained after every action, or interleaved with intake/sync steps; three predicates; by local "
+      "path, remote path, id): extracted monitor on every observation, extracted smart_spec on both trees and the merged listing of every "
+      "folder at every quiescent point; (3) a deterministic set (corpus, exhaustive product of 9 boundary scenarios x predicate x request "
+      "flavour x engine-step slots, fixed-seed sample without the domain restrictions) whose failures are the listed findings S-1, S-2.",
+      ENGINE_NOTE + " C20 specifics: between quiescent points only the monitor guard judges (trees are compared at quiescent points only); "
+      "the sync step itself (manager.sync / embrace_change) is not modelled, only the gate in front of it; local deletes, renames and "
+      "edit/edit conflicts are outside the property's alphabet and are not generated; request / un-request of FOLDERS and requests by id of "
+      "an object the engine knows without a path are generated only in the deterministic set (findings S-2, S-1); for a request call that "
+      "raised something other than not-found, whether a request was left behind is read from the real request set.",
+      ENGINE_TECH + " + stepwise correspondence of a mechanism model on real entry tables", "DESIGN.md §6 C20")
+
+
+# ---- from notes/C15_claim.py
+# to be pasted into harness/manifest_gen.py (after the other engine-level claims)
+claim("C15",
+      "Coq proof (11 theorems, no axioms), for ALL traces over any number of threads and one re-entrant lock (owner + depth), any state type, "
+      "any transformer semantics of a write and any observation function of a read: a well-locked trace in which every access of the guarded "
+      "state is made by the thread that owns the lock (disciplined) is equivalent — same per-thread event sequences, same final state from "
+      "every initial state, same value seen by every read — to a serial trace in which the critical sections run one after another "
+      "(C15_disciplined_serialisable; the witness is the extracted serialise, C15_serialise_correct; it is a sequence of single-thread atomic "
+      "steps whose effects fold to the run's effect, C15_serial_atomic_steps); every invariant preserved by each atomic step holds at every "
+      "point of the interleaved run where no thread owns the lock (C15_invariant_at_lock_free_points); the executable acceptors violations / "
+      "lock_errors decide exactly disciplined / well_locked (reflection, 5 theorems); without the discipline the statement is false "
+      "(C15_undisciplined_refuted: a locked and an unlocked increment lose an update, no serial trace reaches that state). "
+      "Tie on every run: a class-level observer (SyncState.updated, the attribute setters of SideState/SyncEntry/SyncState, observing dict/set "
+      "containers for both indexes, pending set, dirty set, requestset/excludeset, a recording wrapper around SyncState.lock) records the real "
+      "engine's lock operations and state accesses in the model's vocabulary; the extracted acceptors judge every trace and must agree with "
+      "RLock._is_owned() read at each access. Explored per run: all sequential clean-domain engine runs (five families, every access must be "
+      "lock-owned), production-style runs with the real threads (CloudSync.start(): sync thread, two event threads, notification thread) plus "
+      "application threads calling the public methods under switch intervals down to 1e-6 s and injected yields (lock ownership of every access; "
+      "both trees equal after stop for CloudSync; C11 index invariant at the end), scripted calls of every public method of CloudSync and "
+      "SmartCloudSync from an application thread, synthetic traces against a Python mirror, Python threads over a real RLock. "
+      "Open findings P-6/P-6d/P-6e: SmartCloudSync.smart_unsync_path/_oid, smart_delete_path, the pre-lock part of smart_sync_path/_oid, the "
+      "pending-set getter reached from `busy`, and CloudSync.forget touch the state without the lock (deterministic witnesses in corpus/C15).",
+      "Trusted: Coq kernel; extraction (ExtrOcamlBasic) + OCaml driver; the observer and its completeness for the writes that go through "
+      "__setattr__ of the three state classes and through the six containers (reads of entry fields are not observed; a container read counts "
+      "as part of a read-modify-write when the same do()/public call also writes); threading.RLock._is_owned as ground truth; list.append "
+      "under the GIL as the global event order; the virtual clock of harness/engine.py (kept in threaded runs); MockProvider with its events() "
+      "iteration made atomic. Not modelled: WHICH accesses the engine performs (observed on explored runs only), C-level atomicity of dict/set "
+      "operations, the OS scheduler (interleavings are sampled; a run that does not get quiet within its budget is counted inconclusive). "
+      "The cursor rows (data_id) are outside the guarded state by the property's own list.",
+      "machine-checked proof (Coq) of serialisability for lock-disciplined traces + reflected trace acceptors run on the observed lock/access "
+      "traces of real sequential and threaded engine runs", "DESIGN.md §6 C15")
+
+
+# ---- from notes/C14_claim.py
+# text for harness/manifest_gen.py (the coordinator pastes this call; ENGINE_NOTE / PURE_TECH are defined there)
+claim("C14",
+      "Coq proof (19 theorems, no axioms) about EventModel.v (EventManager._process_event, SyncEntry.get_latest / unconditionally_get_latest, "
+      "_last_gotten) on top of StateModel.v (SyncState.update, C11), for EVERY state satisfying the C11 index invariant, every provider "
+      "environment and every event payload: id-less events are dropped and id-less folder deletions resolved by path; a walk event whose hash and "
+      "path equal the stored entry changes nothing; one non-folder event of an id-stable provider changes exactly one entry (exact entry-level "
+      "spec); the same event twice = once (up to the numeric change stamps) except TRASHED+exists, where the difference is removed by the re-read; "
+      "events for different ids commute; after the re-read of the truth by id the state does not depend on which events for an id were delivered, "
+      "how often, in which order or with which payload (priority excepted); a vanished object reads TRASHED whatever was delivered; the deletion "
+      "of an id never seen yields nothing delete_synced could delete; every event (folders included) stamps its side newer than all earlier "
+      "stamps and leaves the entry due for a re-read on both sides when no _last_gotten is ahead of the clock. Six full-strength statements are "
+      "FALSE of the faithful model and kept as _refuted with witnesses replayed on the real code (duplicate creation event after a deletion; "
+      "folder events vs stale child events; priority reset by a stale path; hash_conflict() of a vanished object reads the event's hash; a "
+      "priority punt pushes _last_gotten ahead of the clock so the next event is not re-read; path-style ids: a late copy of a rename event "
+      "re-files the entry of a file re-created at the old path). Ties on every run: (i) after EVERY operation of random event sequences "
+      "(duplicates, late re-deliveries, id-less events, folder deletions by path, walk replays, root events, prior_oid renames, vanished ids, "
+      "get_latest with stubbed provider answers, engine-like state writes; both id styles) the real EventManager/SyncState state incl. "
+      "_last_gotten equals the extracted model's, and the statements are evaluated on the real behaviour; (ii) every clean-domain history is run "
+      "twice on the real engine - prompt in-order delivery and mangled delivery (1-3 copies, late copies, single-event batches, finite delay and "
+      "permutation between drains for id-stable sides, full walks through EventManager.need_walk, dropped path fields, id-less folder deletions) "
+      "- and must give Monitor-accepted runs, equal final trees, equal tree-changing engine calls when the trees are still while the engine works "
+      "(otherwise: no version transferred twice, no more calls of a kind than user operations), and a walk of a quiet engine must leave it quiet.",
+      "Trusted: Coq kernel; extraction (ExtrOcamlBasic) + OCaml driver; StateModel/StateProofs (C11) and PathModel (C13); the harness (C11 clock and "
+      "set-order recording, stubbed provider answers as model inputs, the event mangler installed on provider instances and its flush rule, the "
+      "pairing of two engine runs, Monitor acceptor). NOT proved: the sync manager's decisions after the re-read (only that their inputs are "
+      "equal), folder events beyond idempotence/stamps (children re-filing: correspondence only), path-style ids (refuted; correspondence + engine "
+      "pairs with adjacent copies only), events delayed ACROSS a quiet point (open finding E-10: the mangler flushes at drains), event filtering, "
+      "provider exceptions during intake. Open findings listed in known_findings.json: E-10, E-17.",
+      "machine-checked proof (Coq) over a hand-written executable model + stepwise differential correspondence + paired real engine runs judged by the Coq monitor",
+      "DESIGN.md §6 C14")
+
+
+# ---- from notes/C10_claim.py
+# claim() entry for harness/manifest_gen.py (the coordinator pastes it there; this file is not imported)
+claim("C10",
+      "Coq proof (41 theorems, no axioms) over executable models: (a) the class order of exceptions.py (15 classes + any class derived "
+      "from them by single inheritance) and notify_from_exception as an isinstance chain — every subclass of disconnected / out-of-space / "
+      "file-name / namespace / root-missing / temporary maps to its kind, out-of-space is not shadowed by temporary, no branch is dead; "
+      "(b) the except clauses of SyncManager._sync_one_entry / _validate_provider_roots / EventManager.do as handler tables inside C18's loop "
+      "model — for EVERY exception class and every finite sequence of step results: each step ends in one of LoopModel's outcome classes, "
+      "do() is called once per step (no fault ends a loop), what is notified / punted / committed / need_auth / reconnect / re-authenticate, "
+      "k faulty steps wait min(max, min*mult^(k-1)), the first step that does something resets the backoff; (c) C17's scheduler with "
+      "permanently failing entries — for every table, failing set and clock sequence a good entry that stays eligible is picked within "
+      "budget+1 calls of change() (<= |change set| with default priorities), a punted entry is eligible again after its punt delay; "
+      "(d) Monitor: a failed provider call is a stutter, so an accepted run with faults is converged, has lost no covered version and (one-sided/"
+      "disjoint) equals the history at every quiet report. Full-strength statements false of the code stay as refutations: a fault inside "
+      "SyncState.change() is not notified (finding E-15), root-missing/file-name are not reported by the event loop, an idle sync loop keeps "
+      "its backoff. Ties on every run: fail-closed ast translator regenerating class order, chain and handler tables (GenNotify.v = model by "
+      "reflexivity; do() and _reconnect_if_needed by ast equality); exhaustive class-order/chain differential; scripted steps over all 67 "
+      "classes on the REAL managers through the REAL Runnable.run loop body vs the extracted machines; real SyncState change/punt/finished vs "
+      "sched_run incl. the bound; engine runs on two MockProviders with faults injected into every engine-issued provider call (mutations, "
+      "download, info_oid, info_path, listdir, hash/exists, events and between two events): every single call index x 6 kinds exhaustively per "
+      "base run, random subsets 2-20 %, disconnect()/reconnect, expired tokens with re-authentication, out-of-space, permanent per-path "
+      "failures (locked / invalid name) lifted later, faults during a start-up walk; oracles: nothing leaves Runnable.run, matching "
+      "notification in the step of every reportable injected fault, healthy files in sync while the failing one is set aside, invalid name "
+      "set aside (engine quiet), Monitor acceptance after the faults stop, stepwise machine correspondence on every recorded step.",
+      "Trusted: Coq kernel; extraction (ExtrOcamlBasic) + OCaml driver; the translator's whitelist and Python try/except + isinstance "
+      "semantics built into FaultModel.dispatch/isinst (single inheritance); the observation harness (in-process wrappers on provider / "
+      "storage / manager instances, class-level observer on SyncEntry.punt, virtual clock, serial ids, debug_sig replacement); MockProvider "
+      "incl. its connection state. NOT modelled: the sync algorithm itself (part (d) is about the acceptor; every explored run must be "
+      "accepted, unexplored runs are not covered); OS timing of backoff sleeps; threads. Seeded fault domain excludes the provider calls "
+      "SyncState makes on its own (change() fill-in, _update_kids) — findings E-15, E-8, E-14, replayed from corpus/C10 on every run.",
+      "machine-checked proof (Coq) over hand-written models (reusing LoopModel, SchedModel, Monitor) + translator + differential "
+      "correspondence + fault-injection runs of the real engine judged by the extracted acceptor",
+      "DESIGN.md §6 C10")
+
+
+# ---- from notes/C20_claim.py (after the repairs fc0a567, 2277c0d)
+# paste into harness/manifest_gen.py (after the other engine-level claims; ENGINE_NOTE / ENGINE_TECH are defined there)
+claim("C20",
+      "Coq proof (43 theorems, no axioms), every statement for an ARBITRARY auto-sync predicate. (a) Gate — an executable model of the "
+      "mechanism in cloudsync/smartsync.py over arbitrary entry tables, request / exclude sets and local provider contents: an entry that "
+      "is a remote-only file, not requested and not matched never reaches the sync step (it is not offered, or it is finished at "
+      "pre_sync) and the filter does not request it; folders, requested entries and entries with a live local file always pass; a pending "
+      "folder / requested entry / fresh local change is always offered; request of a file registers the entry, un-excludes it, marks the remote "
+      "side changed, forgets a stale local side and processes changed ancestors first; request of a folder registers nothing; a request by id "
+      "first fills an unknown remote path in and never raises for an object the remote provider has (the code before the repairs fc0a567 / 2277c0d "
+      "is kept as g_request_legacy with four refutation / witness theorems); un-request issues only a push of the entry and a delete of the "
+      "LOCAL object and leaves an entry that cannot be read as a local deletion; the merged listing of one folder. (b) smart_spec — big-step outcomes over (remote tree, local tree, "
+      "requested, un-requested, locally born) for ALL sequences of remote create/mkdir/edit/delete, local create/mkdir/edit, request, "
+      "un-request and edit-then-un-request: an invariant of every reachable state gives folders_always_mirrored, local_tree_uploaded / "
+      "local_creations_uploaded, never_download_unrequested (+ trace form: a file is local only if the sequence contains its request, its "
+      "matched remote creation or its local creation), requested_kept_in_sync (+ persistence, both directions), unrequest_keeps_remote "
+      "(remote tree identical; with a pending local edit: identical except that file's content) and removes only the local copy, "
+      "unrequested_stays_remote (predicate or not), listing_law. (c) Monitor — for every observation trace accepted by mon_accept: a file "
+      "that appears locally while its remote file exists was requested, or is matched and not un-requested; after a successful un-request "
+      "no engine action brings the file back until it is requested again; a remote file disappears through an engine action only outside "
+      "any un-request call and only if a user deleted the local copy (never, when no user deletes locally); inside an un-request call only "
+      "the content of that file's remote copy and the presence of its local copy change. "
+      "Tie on every run: (1) the gate model step by step against the real SmartSyncState._changeset, SmartSyncManager.pre_sync, "
+      "SmartCloudSync.smart_sync_* / smart_unsync_* / smart_listdir_path on random real entry tables; (2) seeded sequences on the real "
+      "SmartCloudSync over two MockProviders (drained after every action, or interleaved with intake/sync steps; three predicates; by local "
+      "path, remote path, id): extracted monitor on every observation, extracted smart_spec on both trees and the merged listing of every "
+      "folder at every quiescent point; (3) a deterministic set (corpus incl. the regression cases of the repaired findings S-1, S-2, exhaustive "
+      "product of 9 boundary scenarios x predicate x request flavour x engine-step slots, fixed-seed sample of the generator) that must pass entirely.",
+      ENGINE_NOTE + " C20 specifics: between quiescent points only the monitor guard judges (trees are compared at quiescent points only); "
+      "the sync step itself (manager.sync / embrace_change) is not modelled, only the gate in front of it; local deletes, renames and "
+      "edit/edit conflicts are outside the property's alphabet and are not generated; for a request call that raised something other than "
+      "not-found (still possible: path unknown and the remote object gone), whether a request was left behind is read from the real request set.",
+      ENGINE_TECH + " + stepwise correspondence of a mechanism model on real entry tables", "DESIGN.md §6 C20")
+
+
+# ---- from notes/C16_claim.py
+# claim text for harness/manifest_gen.py (replaces the existing claim("C16", ...) call)
+claim("C16",
+      "Coq proof (no axioms, by induction over call sequences of any length) about ProvModel.v, a faithful executable model of "
+      "MockProvider/MockFS in its four flavours.  For all call sequences: oid stability (id-style) / oid = path (path-style), append-only event "
+      "log and cursor semantics, agreement of info/exists/hash/download/listdir, the error class of each failing precondition, the hash law for an "
+      "arbitrary hash, event completeness per mutation, the connect identity check, and the structure of the object table (S_inv: no repeated key, "
+      "a path key leads to a cell with that normalised path, id keys = cell numbers) in the three flavours other than path-style+case-insensitive.  "
+      "Tree well-formedness (root is a live folder; every live object is filed under its own path and oid, has a live FOLDER as parent, is listed "
+      "once) is proved for EVERY state reachable by a call sequence that satisfies the explicit decidable guard guard_op in those three flavours "
+      "(C16_wf_reachable_guarded; invariant INV, one preservation lemma per call).  The guard excludes exactly: the path-style+case-insensitive "
+      "flavour (finding C16-F4), a rename whose target lies strictly inside the renamed object's own subtree (C16-F5), removal of the root folder "
+      "(delete of the root, '/' as rename target; new finding C16-F7); each part is shown necessary by a refutation with a witness replayed on the "
+      "real mock.  Keys are unrestricted (a path string used as oid, C16-F6, is covered).  C16_rename_moves_subtree: after a successful guarded "
+      "rename of o from old to p, for every relative path rel the object that was at old++rel is the object at p++rel (same cell, kind, contents; "
+      "same oid for id-style, oid = new path for path-style), the old paths are free (unless only the case changed), every other live object "
+      "except an empty folder that was at p is unchanged, and nothing else appears.  C16_listdir_exact_wf: listdir of a live folder = exactly the "
+      "live objects whose parent path is the folder, each once.  The earlier bounded theorem (clean sequences of <= 3 calls, vm_compute) is kept "
+      "as a special case.  Tie: every return value, exception class, event and tree vs the real MockProvider (4 flavours) and FileSystemProvider "
+      "on a temp directory (synchronous API; inotify stream not compared); wf, listing and rename_moves_subtree predicates evaluated on the real "
+      "MockProvider's own object table on every clean explored sequence.",
+      "Trusted: Coq kernel (vm_compute only for refutation witnesses, the bounded theorem and non-vacuity Examples), extraction + driver, harness "
+      "(reads MockFS._objects and MockProvider._events).  Not proved: that the guard is also sufficient for the path-style+case-insensitive "
+      "flavour (it is not: C16-F4); nothing about FileSystemProvider beyond the differential; filesystem events partial.  The move loop of "
+      "MockProvider.rename runs over a Python set: the model answers EUnspecified where the result would depend on the order, and the theorems "
+      "are about the calls that succeed.",
+      PURE_TECH, "DESIGN.md §6 C16")
+
+
+# ---- from notes/C11_claim.py
+# replaces the claim("C11", ...) call of harness/manifest_gen.py (the coordinator pastes it; that file is not edited here)
+claim("C11",
+      "Coq proof (no axioms) about StateModel.v (entry table, per-side id and (path,id) indexes, change set, every intercepted write as an explicit "
+      "setter with fuel, event application, split, move-a-side): clauses (i)-(iii) (IdxJ: every entry carrying an id is found under it and under "
+      "(path,id); every slot leads to an entry carrying that id/path; one owner per id and side) are PRESERVED, from EVERY state satisfying them and "
+      "for ALL arguments, tapes and fuel, by: id assignment (all of _change_oid), changed, priority, ignored, mark_changed, finished, discard, path "
+      "assignment of ANY entry incl. folders with the recursion of _update_kids through the children's setters (C11_set_path_folder_preserves), "
+      "SyncState.update_entry, SyncState.update (one provider event, all branches: prior_oid re-use / rename detection / merge by side move / stale "
+      "path lookups / new entry), SyncState.split, SyncEntry.__setitem__ (both announcement orders); headline C11_idx_reachable: after EVERY "
+      "operation of EVERY sequence over the whole modelled alphabet from the empty state in which each operation satisfies its guard (guardedb), "
+      "(i)-(iii) hold. Hypotheses, all explicit: env_ok (the code as it is; the providers' per-character case fold satisfies PathLaws.fold_ok - true "
+      "of the model's fold); result constructor Ok (assertion failures, RecursionError = out of fuel and unfitting tapes are explicit Err results); "
+      "the guards, boolean functions of the state BEFORE the operation (decidable, C11_below_decidable): (a) a folder is not placed strictly below "
+      "its own previous path (class of open finding F4, for which termination is refuted: kept), (b) for a side move onto a folder entry that "
+      "already has a path, and for the merge branch of update: additionally the side is not oid_is_path when an id comes along (needed: "
+      "C11_setitem_refuted, new open finding F5, witness replayed on the real SyncState), (c) not forget_oid (C11_forget_refuted; no caller in the "
+      "engine). Measured in the quick run: 99.4% of 147 999 generated steps and 95.8% of 20 000 sequences satisfy the guards (bits printed by the "
+      "extracted guard model, C11_guard_trace_decides); 0 claimed-clause failures inside the guarded domain. Clause (iv) at full strength stays "
+      "refuted (F1). Tie: after EVERY operation of random event/assignment/split/finished/discard/move/update_entry sequences for both id styles the "
+      "real indexes and entries equal the model's (now incl. moves of an id-less side with a path: catches seeded C11b); the four clauses are also "
+      "evaluated on every state of the C06/C07 engine runs (harness/state_oracle.py).",
+      "Trusted: Coq kernel, extraction + driver, harness, PathModel/PathLaws (C13) for is_subpath/join as component lists. The theorems quantify over "
+      "ALL entries of the model's entry table (also ones no slot leads to); the Python oracle only over entries reachable through an id slot. Not "
+      "proved: termination (refuted in general), clause (iv), anything about runs outside the guards; key-uniqueness of the association lists is not "
+      "part of the invariant (hence the event guard also ranges over the entries the stale path lookup returns). Not modelled: CORRUPT/_saved_exists, "
+      "size, mtime, storage, non-default prioritize, state after an exception.",
+      PURE_TECH, "DESIGN.md §6 C11")
+
+
 ALL = ["C%02d" % i for i in range(1, 21)]
 
 
